@@ -29,7 +29,7 @@ type wCase struct {
 	Lazy   []int      `json:"lazy,omitempty"`  // delivery positions after which the wallet updater does not get to run
 }
 
-var wKinds = []string{"pay", "pay", "payvote", "payvote", "payvote", "wspend", "wspend", "wveto", "wveto", "wveto", "wvote", "issuepay", "wxfer"}
+var wKinds = []string{"pay", "pay", "payvote", "payvote", "payvote", "wspend", "wspend", "wveto", "wveto", "wveto", "wvote", "issuepay", "wxfer", "wmerge", "wmerge"}
 
 func genWTx(t *rapid.T, kinds []string) wTx {
 	return wTx{
@@ -76,7 +76,7 @@ func genWCase(prefixMin, prefixMax, runsMin, runsMax int, epochs []uint64, farBa
 			if i >= 13 {
 				// from height 14 on the first reward outputs are mature: spend them (a later switch to a shorter chain un-spends them)
 				if rapid.IntRange(0, 2).Draw(t, "ptxq2") != 0 {
-					b.Txs = append(b.Txs, genWTx(t, []string{"wspend", "wspend", "wspend", "wveto", "pay", "payvote", "wvote"}))
+					b.Txs = append(b.Txs, genWTx(t, []string{"wspend", "wspend", "wmerge", "wmerge", "wveto", "pay", "payvote", "wvote"}))
 				}
 			} else if rapid.IntRange(0, 2).Draw(t, "ptxq") == 0 {
 				b.Txs = append(b.Txs, genWTx(t, []string{"pay", "payvote", "wvote", "wspend", "wveto"}))
